@@ -433,3 +433,89 @@ Example error_of_text_renders_nonvacuous :
   TextErr.st_error q3 "m" (-3) (AggErrPos.select_stmt_text_stp fo re fmt_v ag pi pf q3 d Pipeline.MRow) =
     Some (ErrRender.QError ErrRender.SyntaxErr q3 "m" 18 (-3)).
 Proof. intros. split; [vm_compute; reflexivity|]. split; vm_compute; reflexivity. Qed.
+
+From KV Require Proofs.FuelEnoughProofs Model.Limit Model.ScanProj Model.LimitLazy Model.Pipeline Model.PipelineS Model.SelectPlans.
+
+(* ------------------------------------------------------------------ the fuel of the drain twins
+   suffices (agent N3; Proofs/FuelEnoughProofs.v).  The drain loops of Model/ScanProj.v /
+   LimitLazy.v / AggregateLazy.v / SelectPlans.v answer OutOfModel when their fuel runs out -- the
+   outcome the evaluator twins use for a value outside the model.  These theorems say that the
+   fuel the text pipeline hands to every loop is enough: a run of an accepted text ends at the
+   model boundary only if the front end / planner put the text there (plan_stmt_text = STOom, the
+   classes 1-7 of notes/MP.md) or an evaluator twin answered OutOfModel for one of the trees of the
+   plan ([evals_answer] fails: class 9).  Row mode: every shape buildFinalPlan builds.  Batch mode
+   (PlanBatchSize >= 1; with 0 the scan's Batch loop of the Go code does not terminate either):
+   every shape but FinalLimitPlan over FinalOrderPlan.
+
+   FULL STATEMENT (not proved): the same without [lim_over_order (sp_shape pl) = false] in
+   [fuel_mode_ok].  Missing: the measure of the order node as a pulled child in batch mode
+   (SelectPlans.obatch: |slots| + 1 before prepareBatch, total - pos afterwards) needs
+   total <= |slots|, i.e. that the projection returns one row per pair of a chunk and that the
+   AggregatePlan has at most one group per scanned pair; the generic loop lemma for it is there
+   (FuelEnoughProofs.nf_ldrain_batch_fuel, any measure [mu]). *)
+Theorem select_stmt_text_fuel_enough_partial :
+  forall (fo : fops) (re : bytes -> bytes -> res bool) (fmt_v : F fo -> string)
+         (ag : SelectPlans.aggops fo) (pi pf : bytes -> option Z)
+         (q : string) (d : list (bytes * bytes)) (m : Pipeline.tmode),
+  PipelineS.select_stmt_text_st fo re fmt_v ag pi pf q d m = PipelineS.STOom ->
+  PipelineS.plan_stmt_text fo re fmt_v q = PipelineS.STOom \/
+  exists pl, PipelineS.plan_stmt_text fo re fmt_v q = PipelineS.STOk pl /\
+             (FuelEnoughProofs.fuel_mode_ok fo pl m ->
+              ~ FuelEnoughProofs.evals_answer fo re ag (PipelineS.sp_q fo pl)).
+Proof. exact FuelEnoughProofs.select_stmt_text_fuel_enough_partial_lemma. Qed.
+Print Assumptions select_stmt_text_fuel_enough_partial.
+
+(* the drain of a planned statement, row mode: every shape *)
+Theorem drain_planned_fuel_enough_row :
+  forall (fo : fops) (re : bytes -> bytes -> res bool) (ag : SelectPlans.aggops fo) (pi pf : bytes -> option Z)
+         (pl : PipelineS.splanned fo) (d : list (bytes * bytes)),
+  FuelEnoughProofs.evals_answer fo re ag (PipelineS.sp_q fo pl) ->
+  PipelineS.drain_planned fo re ag pi pf pl d Pipeline.MRow <> OutOfModel.
+Proof. exact FuelEnoughProofs.drain_planned_fuel_enough_row. Qed.
+Print Assumptions drain_planned_fuel_enough_row.
+
+Theorem drain_planned_fuel_enough_batch_partial :
+  forall (fo : fops) (re : bytes -> bytes -> res bool) (ag : SelectPlans.aggops fo) (pi pf : bytes -> option Z)
+         (pl : PipelineS.splanned fo) (d : list (bytes * bytes)) (B : nat),
+  1 <= B -> FuelEnoughProofs.lim_over_order (PipelineS.sp_shape fo pl) = false ->
+  FuelEnoughProofs.evals_answer fo re ag (PipelineS.sp_q fo pl) ->
+  PipelineS.drain_planned fo re ag pi pf pl d (Pipeline.MBatch B) <> OutOfModel.
+Proof. exact FuelEnoughProofs.drain_planned_fuel_enough_batch_partial. Qed.
+Print Assumptions drain_planned_fuel_enough_batch_partial.
+
+(* the loops themselves, over ANY functions that never answer OutOfModel (nf anyv): the generic
+   facts the three theorems above instantiate with the evaluator twins *)
+Theorem drains_fuel_enough :
+  forall (P R : Type) (frow : P -> res bool) (fbatch : list P -> res (list bool))
+         (prow : P -> res R) (pbatch : list P -> res (list R)),
+  (forall kv, frow kv <> OutOfModel) -> (forall ch, fbatch ch <> OutOfModel) ->
+  (forall kv, prow kv <> OutOfModel) -> (forall ch, pbatch ch <> OutOfModel) ->
+  forall (B start count : nat) (slots : list (option P)), 1 <= B ->
+  ScanProj.drain_row frow prow slots <> OutOfModel /\
+  ScanProj.drain_batch fbatch pbatch B slots <> OutOfModel /\
+  LimitLazy.ldrain_row (ScanProj.proj_next frow prow) start count slots <> OutOfModel /\
+  LimitLazy.ldrain_batch_fuel (ScanProj.proj_batch fbatch pbatch B) (SelectPlans.limit_fuel P slots)
+                              B start count Limit.linit slots <> OutOfModel.
+Proof. exact FuelEnoughProofs.drains_fuel_enough_lemma. Qed.
+Print Assumptions drains_fuel_enough.
+
+(* non-vacuity: a text whose run DOES end at the model boundary although the plan was built --
+   json() is outside the evaluator twin -- so the theorem's right-hand alternative is the one
+   that holds (batch mode, LIMIT over a projection); and a text inside the model that runs with
+   exactly the fuel the theorems speak about *)
+Example select_stmt_text_fuel_enough_nonvacuous :
+  forall (fo : fops) (re : bytes -> bytes -> res bool) (fmt_v : F fo -> string)
+         (ag : SelectPlans.aggops fo) (pi pf : bytes -> option Z),
+  let d := [("a", "3"); ("ab", "1"); ("b", "2")] in
+  let q1 := "select key, json(value) where key > '' limit 1" in
+  let q2 := "select key, value where key > '' limit 1, 5" in
+  PipelineS.select_stmt_text_st fo re fmt_v ag pi pf q1 d (Pipeline.MBatch 2) = PipelineS.STOom /\
+  (exists pl, PipelineS.plan_stmt_text fo re fmt_v q1 = PipelineS.STOk pl /\
+              FuelEnoughProofs.fuel_mode_ok fo pl (Pipeline.MBatch 2)) /\
+  (exists rows, PipelineS.select_stmt_text_st fo re fmt_v ag pi pf q2 d (Pipeline.MBatch 2) = PipelineS.STOk rows /\
+                List.length rows = 2).
+Proof.
+  intros. split; [vm_compute; reflexivity|]. split.
+  - eexists. split; [vm_compute; reflexivity|]. split; [repeat constructor | vm_compute; reflexivity].
+  - eexists. split; vm_compute; reflexivity.
+Qed.
